@@ -1,14 +1,174 @@
-(** C06 - (T,V)->(T,P) conversion. Statements about theories/V2PModel.v at the real-number instance. *)
-From Coq Require Import Reals List.
+(** C06 - (T,V)->(T,P) conversion evaluates each quantity at the volume where P(T,V)=P.
+
+    Statements about the model theories/V2PModel.v (transcription of qha.v2p.v2p, _lagrange4,
+    qha.tools.vectorized_find_nearest and of cij's CijPressureBaseInterface /
+    QHACalculator.desired_pressure_status) at the real-number instance ROps.  Proofs in theories/V2P.v.
+    The model is tied to the code by the correspondence shards of tools/props/c06.py on every run.
+
+    Vocabulary (V2P.v):
+      cubic a b c d t        = a + b t + c t^2 + d t^3
+      distinct4 x0 x1 x2 x3  = the four numbers are pairwise different
+      strictly_increasing r  = forall i < j < length r, r[i] < r[j]
+      row_ok r               = strictly_increasing r /\ 4 <= length r
+      in_range r x           = r[0] <= x < r[last]
+      grid_in_range r pd     = every x in pd is in_range r
+      last_of r              = r[length r - 1]                                                    *)
+From Coq Require Import Reals List Arith.
 From Cij Require Import Ops ROps V2PModel V2P.
 Import ListNotations.
 Local Open Scope R_scope.
 
+(** 1. four-point Lagrange interpolation reproduces every polynomial of degree <= 3 *)
 Theorem C06_lagrange4_exact_cubic :
-  forall x0 x1 x2 x3 : R,
-    x0 <> x1 -> x0 <> x2 -> x0 <> x3 -> x1 <> x2 -> x1 <> x3 -> x2 <> x3 ->
+  forall x0 x1 x2 x3 : R, distinct4 x0 x1 x2 x3 ->
   forall a b c d x : R,
     @lagrange4 R ROps x x0 x1 x2 x3 (cubic a b c d x0) (cubic a b c d x1) (cubic a b c d x2) (cubic a b c d x3)
     = cubic a b c d x.
 Proof. exact lagrange4_exact_cubic. Qed.
 Print Assumptions C06_lagrange4_exact_cubic.
+
+Theorem C06_lagrange4_at_node :
+  forall x0 x1 x2 x3 : R, distinct4 x0 x1 x2 x3 ->
+  forall y0 y1 y2 y3,
+    @lagrange4 R ROps x0 x0 x1 x2 x3 y0 y1 y2 y3 = y0 /\
+    @lagrange4 R ROps x1 x0 x1 x2 x3 y0 y1 y2 y3 = y1 /\
+    @lagrange4 R ROps x2 x0 x1 x2 x3 y0 y1 y2 y3 = y2 /\
+    @lagrange4 R ROps x3 x0 x1 x2 x3 y0 y1 y2 y3 = y3.
+Proof. exact lagrange4_at_node. Qed.
+Print Assumptions C06_lagrange4_at_node.
+
+(** 2. the binary search: loop invariant for arrays of any length, any content *)
+Theorem C06_bsearch_invariant :
+  forall (arr : list R) (x : R) (lo0 up0 : nat) (fuel lo up : nat),
+    (lo < up)%nat -> (up - lo <= fuel)%nat ->
+    (lo = lo0 \/ nthR arr lo <= x) ->
+    (up = up0 \/ x < nthR arr up) ->
+    let k := @bsearch R ROps fuel arr x lo up in
+    (lo <= k < up)%nat /\ (k = lo0 \/ nthR arr k <= x) /\ (S k = up0 \/ x < nthR arr (S k)).
+Proof. exact bsearch_invariant. Qed.
+Print Assumptions C06_bsearch_invariant.
+
+(** bracket_correct: on the padded row the search returns k with row[k-1] <= x < row[k] (padded
+    position e holds row[e-1]); that cell is the only one containing x; v2p's slice is the four
+    consecutive padded entries k-1..k+2; they are pairwise distinct; and they are the row entries
+    {0,1,2,3} (first cell, through the padding with column 3), {n-4..n-1} (last cell, through the
+    padding with column -4), or k-2..k+1 (interior). *)
+Theorem C06_bracket_correct :
+  forall (row : list R) (x : R),
+    strictly_increasing row -> (4 <= length row)%nat -> in_range row x ->
+    let k := @find_nearest R ROps (padR row) x in
+    (1 <= k <= length row - 1)%nat /\
+    nthR row (k - 1) <= x < nthR row k /\
+    (forall j, (S j < length row)%nat -> nthR row j <= x < nthR row (S j) -> j = (k - 1)%nat) /\
+    @window R (padR row) k =
+      Some (nthR (padR row) (k - 1), nthR (padR row) k, nthR (padR row) (k + 1), nthR (padR row) (k + 2)) /\
+    distinct4 (nthR (padR row) (k - 1)) (nthR (padR row) k) (nthR (padR row) (k + 1)) (nthR (padR row) (k + 2)) /\
+    (forall i, (i <= 3)%nat ->
+       nthR (padR row) (k - 1 + i) =
+       nthR row (if (k =? 1)%nat then Nat.modulo (i + 3) 4
+                 else if (k =? length row - 1)%nat then (length row - 4 + Nat.modulo (i + 1) 4)%nat
+                 else (k - 2 + i)%nat)).
+Proof. exact bracket_correct. Qed.
+Print Assumptions C06_bracket_correct.
+
+(** 3. conversion of one isotherm *)
+Theorem C06_v2p_point_cubic :
+  forall (frow prow : list R) (a b c d x : R),
+    row_ok prow -> length frow = length prow -> in_range prow x ->
+    (forall i, (i < length prow)%nat -> nthR frow i = cubic a b c d (nthR prow i)) ->
+    @v2p_point R ROps (padR frow) (padR prow) x = Some (cubic a b c d x).
+Proof. exact v2p_point_cubic. Qed.
+Print Assumptions C06_v2p_point_cubic.
+
+Theorem C06_v2p_at_node :
+  forall (frow prow : list R) (j : nat),
+    row_ok prow -> length frow = length prow -> (S j < length prow)%nat ->
+    @v2p_point R ROps (padR frow) (padR prow) (nthR prow j) = Some (nthR frow j).
+Proof. exact v2p_point_at_node. Qed.
+Print Assumptions C06_v2p_at_node.
+
+(** never extrapolated: outside [P_0, P_last) the conversion is undefined (Python: ValueError) *)
+Theorem C06_v2p_outside_undefined :
+  forall (frow prow pd : list R) (x : R),
+    row_ok prow -> length frow = length prow -> In x pd ->
+    x < nthR prow 0 \/ nthR prow (length prow - 1) <= x ->
+    @v2p_row R ROps frow prow pd = None.
+Proof. exact v2p_row_outside. Qed.
+Print Assumptions C06_v2p_outside_undefined.
+
+(** 4. matrices *)
+Theorem C06_v2p_of_pressure_field :
+  forall (P : list (list R)) (pd : list R),
+    Forall (fun prow => row_ok prow /\ grid_in_range prow pd) P ->
+    @v2p R ROps P P pd = Some (map (fun _ => pd) P).
+Proof. exact v2p_of_pressure_field. Qed.
+Print Assumptions C06_v2p_of_pressure_field.
+
+Theorem C06_v2p_cubic_isotherms :
+  forall pd f p coefs, cubic_isotherms pd f p coefs ->
+    @v2p R ROps f p pd = Some (map (fun co => map (cub co) pd) coefs).
+Proof. exact v2p_cubic_isotherms. Qed.
+Print Assumptions C06_v2p_cubic_isotherms.
+
+(** 5. cij layer *)
+Theorem C06_same_field_same_grid :
+  forall (c : @qha_view R) (q : list (list R)),
+    @pressure_base R ROps c q = @v2p R ROps q (vb_pressures c) (pb_p_array c) /\
+    @pb_volumes R ROps c =
+      @pressure_base R ROps c (repeat (vb_v_array c) (length (vb_pressures c))).
+Proof. exact same_field_same_grid. Qed.
+Print Assumptions C06_same_field_same_grid.
+
+Theorem C06_pressure_base_of_pressures :
+  forall (c : @qha_view R),
+    Forall (fun prow => row_ok prow /\ grid_in_range prow (pb_p_array c)) (vb_pressures c) ->
+    @pressure_base R ROps c (vb_pressures c) = Some (map (fun _ => pb_p_array c) (vb_pressures c)).
+Proof. exact pressure_base_of_pressures. Qed.
+Print Assumptions C06_pressure_base_of_pressures.
+
+(** 6. range check *)
+Theorem C06_range_check_sound :
+  forall (P : list (list R)) (pd : list R),
+    (@pressure_status R ROps P pd = Some true ->
+       forall row p, In row P -> In p pd -> p <= last_of row) /\
+    (@pressure_status R ROps P pd = Some false ->
+       exists row p, In row P /\ In p pd /\ last_of row < p) /\
+    (@pressure_status R ROps P pd = None <-> P = [] \/ pd = []).
+Proof. exact range_check_sound. Qed.
+Print Assumptions C06_range_check_sound.
+
+Theorem C06_pressure_status_unit_invariant :
+  forall (s : R) (P : list (list R)) (pd : list R), 0 < s ->
+    @pressure_status R ROps (map (map (Rmult s)) P) (map (Rmult s) pd) = @pressure_status R ROps P pd.
+Proof. exact pressure_status_unit_invariant. Qed.
+Print Assumptions C06_pressure_status_unit_invariant.
+
+Theorem C06_checked_pressure_base_of_pressures :
+  forall (c : @qha_view R),
+    let P := vb_pressures c in let pd := pb_p_array c in
+    @pressure_status R ROps P pd = Some true ->
+    Forall row_ok P ->
+    (forall row p, In row P -> In p pd -> nthR row 0 <= p /\ p <> last_of row) ->
+    @checked_pressure_base R ROps c P pd P = Some (map (fun _ => pd) P).
+Proof. exact checked_pressure_base_of_pressures. Qed.
+Print Assumptions C06_checked_pressure_base_of_pressures.
+
+(** boundary: a grid that reaches min_T P[T][last] exactly passes the check ([<], not [<=]) and is then
+    undefined in the conversion *)
+Theorem C06_accepted_boundary_grid_is_undefined :
+  exists (P : list (list R)) (pd : list R),
+    @pressure_status R ROps P pd = Some true /\ Forall row_ok P /\
+    @v2p R ROps P P pd = None.
+Proof. exact accepted_boundary_grid_is_undefined. Qed.
+Print Assumptions C06_accepted_boundary_grid_is_undefined.
+
+(** non-vacuity *)
+Theorem C06_example_cubic_row :
+  @v2p_row R ROps (map (fun t => t * t) ex_row) ex_row [1 / 2; 5 / 2; 9 / 2] = Some [1 / 4; 25 / 4; 81 / 4].
+Proof. exact ex_cubic_row. Qed.
+Theorem C06_example_row_ok : row_ok ex_row /\ in_range ex_row (5 / 2).
+Proof. exact (conj ex_row_ok ex_in_range). Qed.
+Theorem C06_example_range :
+  @pressure_status R ROps [[0; 1; 2; 3; 4; 5]; [0; 1; 2; 3; 4; 6]] [0; 5] = Some true /\
+  @pressure_status R ROps [[0; 1; 2; 3; 4; 5]; [0; 1; 2; 3; 4; 6]] [0; 11 / 2] = Some false.
+Proof. exact (conj ex_range_accept ex_range_reject). Qed.
